@@ -5,7 +5,7 @@ A *case* is a JSON-able dict (all randomness from Hypothesis):
     {"db": "phreeqc.dat",
      "sol":  {"temp", "pH", "water", "comps": [[element, molality]...], "balance": "Cl"|"pH"|"none"},
      "pp":   [{"name", "si", "moles", "opt": ""|"dissolve_only"|"precipitate_only", "fe": bool, "alt": ""|formula}...],
-     "exch": {"kind": "explicit"|"equil"|"phase"|"kin", ...},
+     "exch": {"kind": "explicit"|"equil"|"equil_multi"|"phase"|"kin", ...},
      "surf": {"kind": "plain"|"equil"|"phase"|"kin", "edl": "no_edl"|"ddl"|"donnan"|"diffuse", ...},
      "ss":   [{"name", "comps": [[phase, moles]...], "nonideal": None | [kind, a0, a1]}...],
      "reaction": {...}, "temps": [...], "kin": {...}, "incr": bool, "mode": "batch"|"cells",
@@ -365,7 +365,7 @@ def exch_phase_candidates(db, phases, sol_elements):
 @st.composite
 def exch(draw, db, phases, has_kin_na, sol_elements):
     cfg = DB[db]
-    kinds = ["explicit", "explicit", "equil", "equil"]
+    kinds = ["explicit", "explicit", "equil", "equil", "equil_multi"]
     cand, nex = exch_phase_candidates(db, phases or [], sol_elements)
     if cand:
         kinds += ["phase", "phase"]
@@ -377,6 +377,14 @@ def exch(draw, db, phases, has_kin_na, sol_elements):
         return {"kind": kind, "species": [[nm, draw(cg.logu(1e-4, 0.05 if nm == "HX" else 0.5, 3))] for nm in names], "nex": nex}
     if kind == "equil":
         return {"kind": kind, "X": draw(cg.logu(1e-4, 1.0, 3)), "nex": nex}
+    if kind == "equil_multi":
+        # -equilibrate with the sites of one exchanger spread over 2-3 lines (bare site and / or formulas): the lines add
+        # up (manual, EXCHANGE: "Line 1 may be repeated to define the entire composition of each exchanger"; "the total
+        # number of exchange sites of X is 1.5 mol" for CaX2 0.3 / MgX2 0.2 / NaX 0.5)
+        k = draw(st.integers(2, 3))
+        pool = ["X", "X", "X"] + [f for f in sorted(cfg["exch"]) if f != "HX"]
+        return {"kind": kind, "nex": nex,
+                "lines": [[draw(st.sampled_from(pool)), draw(cg.logu(1e-4, 0.5, 3))] for _ in range(k)]}
     if kind == "phase":
         ph, fm, z, mx = draw(st.sampled_from(cand))
         return {"kind": kind, "phase": ph, "formula": fm, "z": z, "per_mole": float("%.3g" % (mx * draw(cg.uni(0.01, 0.9, 2)))),
@@ -392,6 +400,10 @@ def render_exch(d, n, eq_sol=1):
             L.append(" %s %s" % (nm, fmt(a)))
     elif d["kind"] == "equil":
         L.append(" X %s" % fmt(d["X"]))
+        L.append(" -equilibrate %d" % eq_sol)
+    elif d["kind"] == "equil_multi":
+        for fm, a in d["lines"]:
+            L.append(" %s %s" % (fm, fmt(a)))
         L.append(" -equilibrate %d" % eq_sol)
     elif d["kind"] == "phase":
         L.append(" %s %s equilibrium_phase %s" % (d["formula"], d["phase"], fmt(d["per_mole"])))
